@@ -199,7 +199,10 @@ pub fn inproc_cell(spec: &Value) -> Value {
 // ---------------------------------------------------------------- real binaries
 
 fn run_tftpc(cwd: &str, args: &[String]) -> Result<(Option<i32>, String), String> {
-    let mut child = Command::new(tftpc_path()).args(args).current_dir(cwd).stdin(Stdio::null()).stdout(Stdio::null()).stderr(Stdio::piped()).spawn().map_err(|e| format!("spawn tftpc: {e}"))?;
+    let mut cmd = Command::new(tftpc_path());
+    cmd.args(args).current_dir(cwd).stdin(Stdio::null()).stdout(Stdio::null()).stderr(Stdio::piped());
+    die_with_parent(&mut cmd);
+    let mut child = cmd.spawn().map_err(|e| format!("spawn tftpc: {e}"))?;
     let t0 = Instant::now();
     loop {
         match child.try_wait() {
